@@ -298,6 +298,11 @@ def k_move_fp(ctx):
     return kq_spatial.move_fp(ctx)
 
 
+def k_move_int(ctx):
+    from vf import kq_spatial
+    return kq_spatial.move_int_k(ctx)
+
+
 def k_move_to_fp(ctx):
     from vf import kq_spatial
     return kq_spatial.move_to_fp(ctx)
@@ -337,6 +342,8 @@ def obligations(tier):
         X("no_position", no_position, parts=[{"world": "space"}, {"world": "grid"}], labels=("checked",), timeout=120, encoded=enc),
         X("history", history, parts=_hist_parts(k, [("space", False), ("grid", False)] + ([("gridlike", True)] if tier != "quick" else [])),
           labels=("done",), timeout=600, group=4, encoded=enc, bounds={"operations": "<= %d, 2 agents, world 4x3" % k}),
+        K("move_int_k", k_move_int, timeout=300, encoded=(SpaceWorld.move,),
+          bounds={"ints": "all extents >= 0, offset 0/1, wrap on/off, any I8 position, any delta (second engine for move_int)"}),
         K("move_fp", k_move_fp, timeout=300, encoded=(SpaceWorld.move,),
           bounds={"doubles": "all finite; extents 0 or >= 1; any I8 position; non-wrapping continuous world"}),
         K("move_to_fp", k_move_to_fp, timeout=300, encoded=(SpaceWorld.move_to,), bounds={"doubles": "all finite; extents 0 or >= 1"}),
